@@ -657,6 +657,9 @@ pub struct Sim {
     /// Messages the server produced for a connection that no longer exists.
     pub orphan_messages: u32,
     pub server_stopped_pending_reset: bool,
+    /// The reset at a stop touches `ServerTick`: the first running frame of the next session
+    /// sends replication even if the tick number is not incremented.
+    pub send_forced_by_restart: bool,
     pub acks: AckModel,
     /// (etag, ctag) -> (version, first tick at which that version was observable) of the last edit.
     pub last_edit: BTreeMap<(u8, u8), (u8, Option<u32>)>,
@@ -700,6 +703,7 @@ impl Sim {
             pre_despawned: BTreeSet::new(),
             orphan_messages: 0,
             server_stopped_pending_reset: false,
+            send_forced_by_restart: false,
             acks: AckModel::default(),
             last_edit: BTreeMap::new(),
             once_sent: BTreeMap::new(),
@@ -1181,7 +1185,11 @@ impl Sim {
             self.auth_snaps.insert(0, vec![false; self.clients.len()]);
             self.server_stopped_pending_reset = false;
         }
-        let is_tick = now != before && !was_reset;
+        let forced = self.send_forced_by_restart && !was_reset && self.server_running();
+        if forced {
+            self.send_forced_by_restart = false;
+        }
+        let is_tick = (now != before && !was_reset) || forced;
         self.last_frame_was_tick = is_tick;
         self.last_tick = now;
         if is_tick {
@@ -1559,6 +1567,7 @@ impl Sim {
             self.disconnect(c);
         }
         self.server_stopped_pending_reset = true;
+        self.send_forced_by_restart = true;
     }
 
     pub fn start_server(&mut self) {
